@@ -1,7 +1,7 @@
 (* C19 — The legacy configuration format round-trips an instance: property theorems. *)
 From Coq Require Import String List Bool ZArith.
 Require Import V.Lib.PyStr V.Lib.JTree V.Dosini.Codec V.Dosini.Generated V.Dosini.Model V.Dosini.Proofs V.Dosini.Tables
-  V.Dosini.Text V.Dosini.TextProofs.
+  V.Dosini.Text V.Dosini.TextProofs V.Dosini.FileProofs.
 Import ListNotations.
 Open Scope string_scope.
 
@@ -123,6 +123,18 @@ Definition example_comp : comp :=
           ("executors.post.lsf-dm-out.payload", VStr "all")]
          [("george", "of the jungle"); ("n", "3")].
 
+(* The two layers composed, for one component of a stage file (measured tables): when the section written for
+   the component (its variables, then its rendered options) is inside the guard of the text layer, writing the
+   file, reading the text and parsing the section gives the component back. *)
+Theorem C19_component_through_file :
+  forall name c i,
+    wf_comp dump_table parse_table known_keys c = true ->
+    forallb (fun o => expressible (fst o)) (opts c) = true ->
+    file_section c = Some i -> table_ok [(name, i)] = true ->
+    via_file name c = Some c.
+Proof. exact via_file_identity. Qed.
+Print Assumptions C19_component_through_file.
+
 (* a table inside the guard of C19_text_roundtrip: a [META] section and two components; a value of five lines
    (an empty one, lines that look like an entry, a section header and an inline comment), a first line that
    starts with '#', keys in mixed case, %(name)s references and an escaped '%%' *)
@@ -140,5 +152,7 @@ Example C19_example :
   roundtrip_c (mkComp [("workflowAttributes.repeatInterval", VFlt "2.5")] []) =
     Some (mkComp [("workflowAttributes.repeatInterval", VFlt "2.5"); ("workflowAttributes.isRepeat", VBool true)] []) /\
   table_ok example_table = true /\
-  (exists txt, write_table example_table = Some txt /\ read_text txt = Some ([], example_table)).
-Proof. vm_compute. repeat split; try reflexivity. eexists. split; reflexivity. Qed.
+  match write_table example_table with Some txt => read_text txt | None => None end = Some ([], example_table) /\
+  match file_section example_comp with Some i => table_ok [("Gen", i)] | None => false end = true /\
+  via_file "Gen" example_comp = Some example_comp.
+Proof. vm_compute. repeat split; reflexivity. Qed.
